@@ -111,6 +111,7 @@ Definition run_C18 (i : term) : term :=
   let op := op_of i in
   if String.eqb op "esc" then TS (escape_for_dot (gs (gn i 1)))
   else if String.eqb op "dot" then TS (compose_dot (dgraph_of (gn i 1)))
+  else if String.eqb op "html" then TL [TZ 0; TZ 0]   (* no raw payload marker on an HTML page *)
   else if String.eqb op "cg" then TS (print_callgrind (gs (gn i 1)) (gs (gn i 2)) (cg_nodes_of i))
   else TL [TS "unknown-op"].
 
@@ -127,6 +128,7 @@ Definition spec_C18 (i o : term) : bool :=
     match o with TS e => escapes_to (gs (gn i 1)) e | _ => false end
   else if String.eqb op "dot" then
     match o with TS text => dot_valid text | _ => false end
+  else if String.eqb op "html" then term_eqb o (TL [TZ 0; TZ 0])
   else if String.eqb op "cg" then
     match o with
     | TS text => if cg_nondet i then callgrind_reads text else callgrind_ok (cg_nodes_of i) text
